@@ -247,7 +247,9 @@ class Ctx:
         self.tier = tier
         self.seed = seed
         self.rng = random.Random("%s-%d" % (pid, seed))
-        self.run_dir = RUN / pid
+        # VERIF_TAG: side runs (seed soaks) get their own run directory and evidence location so that they can run next
+        # to a registered check of the same property
+        self.run_dir = RUN / (pid + ("_" + os.environ["VERIF_TAG"] if os.environ.get("VERIF_TAG") else ""))
         self.obligations = []      # dict(name, kind, ok, detail)
         self.failures = []         # dict(key, what, input, expected, observed)
         self.samples = []
